@@ -49,9 +49,16 @@ def one(idx, feats, release, hooks_variant):
     res["kat"] = {}
     if c == 0:
         exe = os.path.join(tdir, "release" if release else "debug", "cfgprobe")
-        r = subprocess.run([exe], stdout=subprocess.PIPE, stderr=subprocess.STDOUT, text=True, timeout=300)
-        res["probe_exit"] = r.returncode
-        res["probe_out"] = r.stdout[-1500:]
+        try:
+            r = subprocess.run([exe], stdout=subprocess.PIPE, stderr=subprocess.STDOUT, text=True, timeout=240)
+            res["probe_exit"] = r.returncode
+            res["probe_out"] = r.stdout[-1500:]
+            out_text = r.stdout
+        except subprocess.TimeoutExpired as ex:
+            res["probe_exit"] = "timeout"
+            res["probe_out"] = "known-answer binary did not terminate within 240 s (normally < 1 s): " + str((ex.stdout or b"")[-300:])
+            out_text = ""
+        r = type("R", (), {"stdout": out_text})()
         for line in r.stdout.splitlines():
             if line.startswith("KAT "):
                 parts = line.split()
